@@ -6,7 +6,7 @@ import os
 import sys
 
 from ..config_loader import load_config, load_supplemental_sources
-from ..merchant_utils import get_transforms
+from ..merchant_utils import get_transforms, RulesLoadError
 from ..analyzer import (
     parse_amex,
     parse_boa,
@@ -75,7 +75,11 @@ def cmd_run(args):
         print()
 
     # Load merchant rules (with migration check for CSV -> .rules)
-    rules = _check_merchant_migration(config, config_dir, args.quiet, getattr(args, 'migrate', False))
+    try:
+        rules = _check_merchant_migration(config, config_dir, args.quiet, getattr(args, 'migrate', False))
+    except RulesLoadError as e:
+        print(f"Error: {e}", file=sys.stderr)
+        sys.exit(1)
 
     # Load supplemental data sources for cross-source queries
     supplemental_data = load_supplemental_sources(config, config_dir)
